@@ -364,7 +364,14 @@ def check_guards(ctx, rid, prop):
         got = sorted(core.control_terms(F, f, bi) for bi in sites)
         prof = 'rel' if str(getattr(F, 'config', '')).endswith('-rel') else 'dbg'
         want = sorted(sorted(x) for x in e['sites'][prof])
-        ok = got == want
+        # every reviewed site (as its multiset of controlling terms) must still exist; additional sites are new behaviour, not a violation
+        pool = [tuple(x) for x in got]
+        ok = True
+        for w in want:
+            if tuple(w) in pool:
+                pool.remove(tuple(w))
+            else:
+                ok = False
         if not ok:
             # a test moved into a small helper: compare the flattened atom sets, looking through helpers that are not
             # themselves reviewed atoms (the per-switch structure is lost across the helper boundary)
